@@ -173,6 +173,14 @@ def run_case(case):
 
 def main(args):
     run = core.Run("C12", args.tier, "exploration", "./check C12 --tier " + args.tier)
+    # E1 (proof part): the scope search itself, for every list of <= 3 visible scopes and every definedness pattern
+    from vlib import pool
+    pool.run_targets(run, "contracts.resolver", ["_find_target_of_reference"])
+    run.function("compiler.front_end.symbol_resolver._find_target_of_reference",
+                 "pyvc: body executed symbolically over ghost scope tables: unique candidate returned, none -> missing-name error, several -> ambiguous-name error (never precedence), is_local_name -> innermost")
+    run.assume(*core.STANDING_ASSUMPTIONS["E1"])
+    run.assume("_find_target_of_reference: scope tables are ghost dicts (presence of the name symbolic, a definition's own table empty or not); single-component names; "
+               "aliases (imports) and multi-component paths are covered by the bounded scenarios only")
     cs = type_ref_cases() + other_cases()
     t0 = time.time()
     with multiprocessing.get_context("fork").Pool(16) as p:
